@@ -187,6 +187,16 @@ class Disposable:
         ys = [family.make(t, u) for t, u in self.spec["yield"]]
         form = self.spec.get("form", "auto")
         # every legal shape of `Iterable[State] | State | None`, including one-shot iterables
+        if form == "bad-generator":
+            # the states are produced lazily and producing them fails: entering this resource has failed
+            self.enter_done = False
+            self.enter_err = DispErr(f"{self.owner}.d{self.idx}.states")
+
+            def failing(err: BaseException = self.enter_err) -> Any:
+                yield from ys[:1]
+                raise err
+
+            return failing()
         if form == "generator":
             return (y for y in ys)
         if form == "iter":
@@ -244,6 +254,13 @@ class AwaitableDisposable(Disposable):
         return _Awaitable(Disposable.__aenter__(self))
 
     def __aexit__(self, et: Any, ev: Any, tb: Any) -> Any:  # type: ignore[override]
+        if self.spec.get("exit") == "sync-raise":
+            # fails before it can hand out its awaitable
+            self.exit_calls += 1
+            self.exit_args = (et, ev, tb)
+            self.W.event("d-exit", self.owner, self.idx)
+            self.exit_err = DispErr(f"{self.owner}.d{self.idx}.exit")
+            raise self.exit_err
         return asyncio.ensure_future(Disposable.__aexit__(self, et, ev, tb))
 
 
@@ -679,6 +696,13 @@ async def run_block(W: World, block: dict[str, Any], rng: random.Random | None) 
             await run_steps(W, block["body"], rng)
         ex = (block.get("exit") or {}).get("kind", "return")
         W.event("body-end", name, ex)
+        if ex == "cancel-pending":
+            # the body asks for its own cancellation and returns without suspending again: the request is still undelivered
+            # when the block is left - it arrives at the first suspension point of the exit
+            t0 = asyncio.current_task()
+            assert t0 is not None
+            t0.cancel()
+            return
         if ex == "cancel-self":
             # an external-style cancellation: requested now, delivered at the next suspension point of the body
             t = asyncio.current_task()
